@@ -982,8 +982,15 @@ fn run_cong(ctx: &mut Ctx, i: u64) {
             }
             matches!(t, DataType::Float16 | DataType::Float32 | DataType::Float64)
         };
-        if float_leaf && what.starts_with("value-differs") && (name.starts_with("agg.sum") || name.starts_with("agg.product")) {
+        // (the run-end form of agg.min_max returns [sum, min, max]: only its output 0, the sum, is exempt)
+        if float_leaf && what.starts_with("value-differs") && (name.starts_with("agg.sum") || name.starts_with("agg.product") || (name == "agg.min_max" && text.starts_with("output 0:"))) {
             ctx.count("not_asserted_float_reassociation", 1);
+            continue;
+        }
+        // not asserted: dictionary key capacity. Whether merged dictionaries still fit the key type
+        // depends on how many (possibly unreferenced) dictionary entries a layout carries.
+        if text.contains("Dictionary key bigger than the key type") {
+            ctx.count("not_asserted_dictionary_key_capacity", 1);
             continue;
         }
         ctx.violation(
